@@ -86,7 +86,7 @@ Last(s) == s[Len(s)]
 Front(s) == SubSeq(s, 1, Len(s) - 1)
 Range(s) == {s[i] : i \in DOMAIN s}
 NoLoc == [j |-> 0, n |-> 0, node |-> 0, ok |-> TRUE, g |-> 0, snap |-> <<>>, jobs |-> <<>>, old |-> 0, shrink |-> 0,
-          wsnap |-> {}, clean |-> FALSE, solo |-> FALSE, tok |-> 0, res |-> "nil"]
+          wsnap |-> {}, clean |-> FALSE, solo |-> FALSE, tok |-> 0, cnt |-> 0, res |-> "nil"]
 
 pc == S.pc
 Op(c) == Prog[c][S.ip[c]]
@@ -190,19 +190,19 @@ CT_Marked(p) ==
      /\ S' = IF Adapter /\ p \in Clients THEN Ret(s0, p)                       \* a rejected persistent Add closes a local object
              ELSE IF b = 0 THEN (IF WK = "plain" \/ Adapter THEN Ret([s0 EXCEPT !.jwg[j] = @ - 1], p)
                                  ELSE [s0 EXCEPT !.jwg[j] = @ - 1, !.pc[p] = "resp.close"])
-             ELSE [s0 EXCEPT !.gcount[b] = @ - 1, !.loc[p].n = S.gcount[b], !.pc[p] = "wgc.cas"]
+             ELSE [s0 EXCEPT !.gcount[b] = @ - 1, !.loc[p].cnt = S.gcount[b], !.pc[p] = "wgc.cas"]
      /\ H' = IF p \in Clients /\ Op(p).op = "AddAll" THEN [H EXCEPT !.rejected = @ \cup {j}]
              ELSE IF p \in Clients /\ S'.pc[p] \in {"call", "done"} THEN HFin(p, IF Op(p).op = "Add" THEN "rej" ELSE "nil")
              ELSE H
 CT_Wgc(p) ==
   /\ S.pc[p] = "wgc.cas"
   /\ LET b == BatchOf[S.loc[p].j]  s1 == [S EXCEPT !.gwg[b] = @ - 1] IN
-       S' = IF S.loc[p].n = 1 /\ WK # "plain" THEN [s1 EXCEPT !.pc[p] = "resp.close"] ELSE Ret(s1, p)
+       S' = IF S.loc[p].cnt = 1 /\ WK # "plain" THEN [s1 EXCEPT !.pc[p] = "resp.close"] ELSE Ret(s1, p)
   /\ H' = IF p \in Clients /\ S'.pc[p] \in {"call", "done"} THEN HFin(p, "nil") ELSE H
 CT_RespClose(p) ==
   /\ S.pc[p] = "resp.close"
   /\ LET j == S.loc[p].j  b == IF j = 0 THEN 0 ELSE BatchOf[j] IN
-       S' = Ret(IF j = 0 THEN [S EXCEPT !.gclosed[S.loc[p].n] = @ + 1]
+       S' = Ret(IF j = 0 THEN [S EXCEPT !.gclosed[S.loc[p].cnt] = @ + 1]
                 ELSE IF b = 0 THEN [S EXCEPT !.rclosed = @ \cup {j}] ELSE [S EXCEPT !.gclosed[b] = @ + 1], p)
   /\ H' = IF p \in Clients /\ S'.pc[p] \in {"call", "done"} THEN HFin(p, "nil") ELSE H
 
@@ -229,7 +229,7 @@ C_AddAll(c) ==
          s1 == [S EXCEPT !.gcount[b] = Len(items), !.gwg[b] = Len(items), !.gclosed[b] = 0,
                          !.loc[c].jobs = items, !.loc[c].snap = <<>>, !.pc[c] = "i.addall"] IN
        \* the stream of an empty batch is closed at creation (nobody else would)
-       S' = IF Len(items) = 0 /\ WK # "plain" THEN [s1 EXCEPT !.loc[c].j = 0, !.loc[c].n = b, !.stk[c] = <<"i.addall">>, !.pc[c] = "resp.close"] ELSE s1
+       S' = IF Len(items) = 0 /\ WK # "plain" THEN [s1 EXCEPT !.loc[c].j = 0, !.loc[c].cnt = b, !.stk[c] = <<"i.addall">>, !.pc[c] = "resp.close"] ELSE s1
   /\ UNCHANGED H
 I_AddAllNext(c) ==
   /\ c \in Clients /\ S.pc[c] = "i.addall"
